@@ -213,7 +213,7 @@ func b2i(b bool) int64 {
 	return 0
 }
 
-const maxPick = 96
+const maxPick = 260
 
 // Pick concretises a 64-bit term: the path continues with one feasible value,
 // every other feasible value becomes a sibling path.
